@@ -47,7 +47,7 @@ MUTANTS = [
     ("eager-no-suppression", S, "transaction.run.eq(transaction.ready & transaction.runnable & noconflict)", "transaction.run.eq(transaction.ready & transaction.runnable)"),
     ("eager-wrong-graph-row", S, "if ccl[j] in gr[transaction]]", "if ccl[j] in gr[ccl[0]]]"),
     ("rr-run-ignores-valid-index", S, "transaction.run.eq(rr.grant[k] & rr.valid)", "transaction.run.eq(rr.grant[0] & rr.valid)"),
-    ("double-call-accepts-nonexclusive-paths", M, "if not method.nonexclusive and not call_paths_exclusive(old_call_path, new_call_path):", "if not method.nonexclusive and call_paths_exclusive(old_call_path, new_call_path):"),
+    ("double-call-accepts-nonexclusive-paths", M, "if not through_nonexclusive and not call_paths_exclusive(old_call_path, new_call_path):", "if not through_nonexclusive and call_paths_exclusive(old_call_path, new_call_path):"),
     ("sightings-only-first", M, "                        call_sights[method].append((new_ancestors, new_call_path))\n", "                        if not call_sights[method]:\n                            call_sights[method].append((new_ancestors, new_call_path))\n"),
     ("enable-sig-in-top-comb", core.METHOD, "m.d.av_comb += enable_sig.eq(1)", "m.d.top_comb += enable_sig.eq(1)"),
 ]
